@@ -101,6 +101,17 @@ pub fn shapes_at(ks: &[usize], gaps: bool) -> Vec<(String, P)> {
                 add(format!("cycle-into-path({},{})", c, k), c + k, e, vec![], vec![c + k - 1], &mut out);
             }
         }
+        // transitive tournament on k + 1 nodes: a unary operation i -> j for every i < j (every node is discovered from
+        // several different layers)
+        if k <= 6 {
+            let mut e = vec![];
+            for i in 0..=k {
+                for j in i + 1..=k {
+                    e.push(edge(0, vec![i], vec![j]));
+                }
+            }
+            add(format!("tournament({})", k + 1), k + 1, e, vec![0], vec![k], &mut out);
+        }
         // diamond: a source operation feeding k parallel operations feeding a sink
         let mut e = vec![edge(0, vec![0], (1..=k).collect())];
         e.extend((1..=k).map(|i| edge(0, vec![i], vec![k + i])));
